@@ -34,6 +34,7 @@ pub trait MatFam: 'static {
     fn rm_new(f: Self::Flat) -> Self::RM;
     fn rm_field(m: &Self::RM, i: usize, j: usize) -> &Tok;
     fn rm_slice(m: &Self::RM) -> &[Tok];
+    fn rm_ptrs(m: &mut Self::RM) -> (*const Tok, *const Tok);
     fn rm_slice_mut(m: &mut Self::RM) -> &mut [Tok];
     fn rm_index(m: &Self::RM, i: usize, j: usize) -> &Tok;
     fn rm_index_mut(m: &mut Self::RM, i: usize, j: usize) -> &mut Tok;
@@ -53,6 +54,7 @@ pub trait MatFam: 'static {
     fn cm_new(f: Self::Flat) -> Self::CM;
     fn cm_field(m: &Self::CM, i: usize, j: usize) -> &Tok;
     fn cm_slice(m: &Self::CM) -> &[Tok];
+    fn cm_ptrs(m: &mut Self::CM) -> (*const Tok, *const Tok);
     fn cm_slice_mut(m: &mut Self::CM) -> &mut [Tok];
     fn cm_index(m: &Self::CM, i: usize, j: usize) -> &Tok;
     fn cm_index_mut(m: &mut Self::CM, i: usize, j: usize) -> &mut Tok;
@@ -144,6 +146,7 @@ macro_rules! matfam {
                 line_field!(line, j, [$($f)+], [$($i)+])
             }
             fn rm_slice(m: &Self::RM) -> &[Tok] { m.as_row_slice() }
+            fn rm_ptrs(m: &mut Self::RM) -> (*const Tok, *const Tok) { (m.as_row_ptr(), m.as_mut_row_ptr() as *const Tok) }
             fn rm_slice_mut(m: &mut Self::RM) -> &mut [Tok] { m.as_mut_row_slice() }
             fn rm_index(m: &Self::RM, i: usize, j: usize) -> &Tok { &m[(i, j)] }
             fn rm_index_mut(m: &mut Self::RM, i: usize, j: usize) -> &mut Tok { &mut m[(i, j)] }
@@ -177,6 +180,7 @@ macro_rules! matfam {
                 line_field!(line, i, [$($f)+], [$($i)+])
             }
             fn cm_slice(m: &Self::CM) -> &[Tok] { m.as_col_slice() }
+            fn cm_ptrs(m: &mut Self::CM) -> (*const Tok, *const Tok) { (m.as_col_ptr(), m.as_mut_col_ptr() as *const Tok) }
             fn cm_slice_mut(m: &mut Self::CM) -> &mut [Tok] { m.as_mut_col_slice() }
             fn cm_index(m: &Self::CM, i: usize, j: usize) -> &Tok { &m[(i, j)] }
             fn cm_index_mut(m: &mut Self::CM, i: usize, j: usize) -> &mut Tok { &mut m[(i, j)] }
@@ -625,6 +629,16 @@ impl<F: MatFam> MatExec<F> {
                     };
                     match kind {
                         MSliceRead => {
+                            // the raw-pointer accessors must point at the first element of the view
+                            let (p0, p1) = match form {
+                                MForm::RM(mm) => F::rm_ptrs(mm),
+                                MForm::CM(mm) => F::cm_ptrs(mm),
+                                _ => unreachable!(),
+                            };
+                            if p0 != fields[0] || p1 != fields[0] {
+                                tok::raise(V9_ALIAS, format!("as_(mut_){}_ptr does not point at the first element", if cm { "col" } else { "row" }));
+                                return;
+                            }
                             let s = match form {
                                 MForm::RM(mm) => F::rm_slice(mm),
                                 MForm::CM(mm) => F::cm_slice(mm),
